@@ -94,8 +94,8 @@ CallChoices ==
   \cup { <<"Enable", [lo |-> m, hi |-> 0]>> : m \in EnableArgs }
   \cup (IF Cardinality(Handles) < MaxLive THEN
             { <<"Create", [lo |-> u, hi |-> 0]>> : u \in CreateArgs }
-       \cup { <<"Decode", [str |-> p, len |-> 0, coin |-> c, lang |-> 0, wantlang |-> TRUE]>> : p \in PhrasePool, c \in CoinPool }
-       \cup { <<"DecodeX", [str |-> p, len |-> 0, coin |-> 0, lang |-> k, wantlang |-> FALSE]>> : p \in PhrasePool, k \in LangPool }
+       \cup { <<"Decode", [str |-> p, len |-> 0, coin |-> c, lang |-> 0, wantlang |-> TRUE, idn |-> FALSE]>> : p \in PhrasePool, c \in CoinPool }
+       \cup { <<"DecodeX", [str |-> p, len |-> 0, coin |-> 0, lang |-> k, wantlang |-> FALSE, idn |-> FALSE]>> : p \in PhrasePool, k \in LangPool }
        \cup { <<"Load", [buf |-> ImageBytes(p)]>> : p \in ImagePool }
         ELSE {})
   \cup { <<"Free", [h |-> h]>> : h \in Handles \cup {0} }
@@ -166,7 +166,7 @@ Base == [residue |-> <<>>, intact |-> TRUE, live |-> <<>>]
 RetChoices ==
     LET op == call.op
     IN CASE op \in ConstructorOps ->
-              { [e |-> "Ret", op |-> op, residue |-> <<>>, intact |-> TRUE, st |-> st,
+              { [e |-> "Ret", op |-> op, residue |-> <<>>, intact |-> TRUE, outw |-> FALSE, st |-> st,
                  h |-> (IF st = StOK THEN FreshHandle ELSE 0), blk |-> b,
                  langout |-> (IF op = "Decode" /\ st = StOK THEN G(call.a.str.lang).id ELSE "none")] :
                    st \in 0..7, b \in {0} \cup OwnBlocks }
